@@ -7,6 +7,7 @@ import ctor as CT
 import cmpstage as CM
 import ovstage as OV
 import sdstage as SD
+import apalache as AP
 from stages import BASE, CONV, CONV_CORE, BORROW, UNIQ, COW, UNWRAP
 
 SIZED_MODULES = ["Triomphe.tla", "MC_Sized.tla"]
@@ -61,13 +62,15 @@ def lay(prop, tier, name):
 
 
 def c05(tier, seed):
-    return [lay("C05", tier, "layout_matrix_" + tier[0])]
+    return [lay("C05", tier, "layout_matrix_" + tier[0]),
+            stage(CT.ctor_stage, "C05", tier, "release_" + tier[0], ["release", "union_drop"], True)]
 
 
 def c11(tier, seed):
     ops = BASE + CONV + ["Borrow", "BorCopy", "Enter", "Exit"]
     return [lay("C11", tier, "layout_matrix_" + tier[0]),
-            sized("C11", tier, "sized_raw_" + tier[0], ops, 3 if tier == "quick" else 4, 2, 1)]
+            sized("C11", tier, "sized_raw_" + tier[0], ops, 3 if tier == "quick" else 4, 2, 1),
+            slices("C11", tier, "slices_raw_" + tier[0], 3 if tier == "quick" else 4, 2, 2)]
 
 
 THIN_MODULES = ["Thin.tla", "MC_Thin.tla"]
@@ -99,9 +102,12 @@ def uninit(prop, tier, name, nslots, nblocks, maxlen, simulate=None):
 
 def c15(tier, seed):
     if tier == "quick":
-        return [uninit("C15", tier, "uninit_q", 3, 2, 2), uninit("C15", tier, "uninit_walks_q", 5, 4, 4, simulate=(500, 40, seed))]
+        return [uninit("C15", tier, "uninit_q", 3, 2, 2), uninit("C15", tier, "uninit_walks_q", 5, 4, 4, simulate=(500, 40, seed)),
+                # the deprecated Arc::write / as_mut_slice are uniqueness gates: their load is part of the extracted protocol
+                mm("C15", tier, "mm_deprecated_write_q", [("c15_2x3", ["clone", "read", "drop", "get_mut"], 2, 3, 2, False)])]
     return [uninit("C15", tier, "uninit_t", 3, 2, 3), uninit("C15", tier, "uninit_t4", 4, 2, 2),
-            uninit("C15", tier, "uninit_walks_t", 5, 4, 5, simulate=(10000, 60, seed))]
+            uninit("C15", tier, "uninit_walks_t", 5, 4, 5, simulate=(10000, 60, seed)),
+            mm("C15", tier, "mm_deprecated_write_t", [("c15_2x4", ["clone", "read", "drop", "get_mut"], 2, 4, 2, False), ("c15_3x2", ["clone", "read", "drop", "get_mut"], 3, 2, 1, False)])]
 
 
 def c06(tier, seed):
@@ -114,7 +120,7 @@ def c06(tier, seed):
 def c07(tier, seed):
     frames = BASE + CONV_CORE + ["Borrow", "Enter", "Exit", "MakeMut", "UnwrapOrClone"]
     n = 3 if tier == "quick" else 4
-    return [stage(CT.ctor_stage, "C07", tier, "ctor_faults_" + tier[0], ["fhi", "thin", "collect", "vec", "observe"], True),
+    return [stage(CT.ctor_stage, "C07", tier, "ctor_faults_" + tier[0], ["fhi", "thin", "collect", "vec", "observe", "release"], True),
             sized("C07", tier, "sized_panics_" + tier[0], frames, n, 2, 2 if tier == "thorough" else 1, hows=("new", "newB")),
             thin("C07", tier, "thin_panics_" + tier[0], THIN_OPS, n, 2, 1, 1),
             thin("C07", tier, "thin_walks_" + tier[0], THIN_OPS, 6, 4, 2, 3, simulate=((1000, 40, seed) if tier == "quick" else (20000, 80, seed)))]
@@ -132,6 +138,17 @@ def c14(tier, seed):
     return [stage(CM.compare_stage, "C14", tier, "compare_" + tier[0])]
 
 
+SLICES_MODULES = ["Slices.tla", "MC_Slices.tla"]
+SLICES_OPS = ["New", "Clone", "Drop", "Erase", "Unerase", "IntoRaw", "FromRawSlice", "FromRaw", "Shareable", "Unsize", "Borrow", "TryUnique", "GetMut"]
+
+
+def slices(prop, tier, name, nslots, nblocks, maxlen, simulate=None):
+    cfg = "\n".join(["SPECIFICATION Spec", "CONSTANTS", "  NSlots = %d" % nslots, "  NBlocks = %d" % nblocks, "  MaxLen = %d" % maxlen, "  ArrLen = 2",
+                     "  KeepHist = TRUE", "  Ops = %s" % S.tla_set(SLICES_OPS), "VIEW CanonView", "INVARIANT Invariants",
+                     "PROPERTY ActionsOK", "ACTION_CONSTRAINT Emit", "CHECK_DEADLOCK FALSE", ""])
+    return stage(S.graph_replay, prop, tier, name, "slices", "MC_Slices.tla", SLICES_MODULES, cfg, nslots, simulate=simulate)
+
+
 def c10(tier, seed):
     if tier == "quick":
         return [thin("C10", tier, "thin_q", THIN_OPS, 3, 2, 1, 1),
@@ -147,11 +164,15 @@ def c01(tier, seed):
         return [sized("C01", tier, "sized_life_q", BASE + CONV + BORROW + ["TryUnique"], 3, 2, 1),
                 sized("C01", tier, "sized_life_q4", BASE + CONV_CORE + ["Borrow", "Enter", "Exit"], 4, 2, 1, hows=("new", "newB")),
                 walks("C01", tier, seed),
-                thin("C01", tier, "thin_life_q", THIN_OPS, 3, 2, 1, 1)]
+                thin("C01", tier, "thin_life_q", THIN_OPS, 3, 2, 1, 1),
+                slices("C01", tier, "slices_life_q", 3, 2, 2),
+                mm("C01", tier, "mm_clone_drop_q", [("c01_2x3", ["clone", "read", "drop"], 2, 3, 2, False)])]
     return [sized("C01", tier, "sized_life_t", BASE + CONV + BORROW + ["TryUnique"], 4, 2, 2),
             sized("C01", tier, "sized_life_t5", BASE + CONV_CORE + ["Enter", "Exit"], 5, 2, 1, hows=("new", "newB")),
             walks("C01", tier, seed),
-            thin("C01", tier, "thin_life_t", THIN_OPS, 4, 2, 2, 2)]
+            thin("C01", tier, "thin_life_t", THIN_OPS, 4, 2, 2, 2),
+            slices("C01", tier, "slices_life_t", 4, 2, 2), slices("C01", tier, "slices_walks_t", 6, 4, 3, simulate=(5000, 60, seed)),
+            mm("C01", tier, "mm_clone_drop_t", [("c01_2x3", ["clone", "read", "drop"], 2, 3, 2, False), ("c01_3x3", ["clone", "read", "drop"], 3, 3, 1, False)])]
 
 
 def c03(tier, seed):
@@ -171,9 +192,11 @@ def c04(tier, seed):
     ops = BASE + CONV + BORROW + ["TryUnique", "MakeMut", "UnwrapOrClone"]
     if tier == "quick":
         return [sized("C04", tier, "sized_count_q", ops, 3, 2, 1), walks("C04", tier, seed),
-                thin("C04", tier, "thin_count_q", THIN_OPS, 3, 2, 1, 1), tr("C04", tier, "threads_q", seed)]
+                thin("C04", tier, "thin_count_q", THIN_OPS, 3, 2, 1, 1), slices("C04", tier, "slices_count_q", 3, 2, 2),
+                tr("C04", tier, "threads_q", seed), stage(AP.ind_stage, "C04", tier, "apalache_inductive_q")]
     return [sized("C04", tier, "sized_count_t", ops, 4, 2, 2), walks("C04", tier, seed),
-            thin("C04", tier, "thin_count_t", THIN_OPS, 4, 2, 2, 2), tr("C04", tier, "threads_t", seed)]
+            thin("C04", tier, "thin_count_t", THIN_OPS, 4, 2, 2, 2), slices("C04", tier, "slices_count_t", 4, 2, 2),
+            tr("C04", tier, "threads_t", seed), stage(AP.ind_stage, "C04", tier, "apalache_inductive_t")]
 
 
 def c08(tier, seed):
@@ -204,9 +227,11 @@ def c12(tier, seed):
     ops = BASE + ["FromFirst", "FromSecond", "Borrow", "BorCopy", "Enter", "Exit", "IntoRaw", "FromRaw"]
     if tier == "quick":
         return [sized("C12", tier, "sized_union_q", ops, 4, 2, 1, hows=("new", "newB")), lay("C12", tier, "layout_matrix_q"),
-                stage(CM.compare_stage, "C12", tier, "union_variants_q", only=["different variants"])]
+                stage(CM.compare_stage, "C12", tier, "union_variants_q", only=["different variants"]),
+                stage(CT.ctor_stage, "C12", tier, "union_release_q", ["union_drop"], True)]
     return [sized("C12", tier, "sized_union_t", ops, 5, 2, 1, hows=("new", "newB")), lay("C12", tier, "layout_matrix_t"),
-            stage(CM.compare_stage, "C12", tier, "union_variants_t", only=["different variants"])]
+            stage(CM.compare_stage, "C12", tier, "union_variants_t", only=["different variants"]),
+            stage(CT.ctor_stage, "C12", tier, "union_release_t", ["union_drop"], True)]
 
 
 GRAPH_ASSUME = [
@@ -249,14 +274,14 @@ PROPS = {
     "C05": {"level": "model_checking", "stages": c05, "assumptions": LAYOUT_ASSUME, "replay": any_replay},
     "C11": {"level": "model_checking", "stages": c11, "assumptions": LAYOUT_ASSUME + GRAPH_ASSUME, "replay": any_replay},
     "C10": {"level": "model_checking", "stages": c10, "assumptions": GRAPH_ASSUME + LAYOUT_ASSUME, "replay": any_replay},
-    "C15": {"level": "model_checking", "stages": c15, "assumptions": GRAPH_ASSUME, "replay": any_replay},
+    "C15": {"level": "model_checking", "stages": c15, "assumptions": GRAPH_ASSUME + MM_ASSUME, "replay": any_replay},
     "C06": {"level": "model_checking", "stages": c06, "assumptions": GRAPH_ASSUME + ["Ctor.tla models each constructor as the sequence of calls, writes and checks the source performs; lengths beyond the fault bound are honest cases only"], "replay": any_replay},
     "C07": {"level": "fault_enumeration", "stages": c07, "assumptions": GRAPH_ASSUME + ["faults: panic at the k-th next / Clone / callback exit / comparison-hash-format impl, misreported len/size_hint within +-2 and changing between calls, failing allocation 1..3 (child processes); a leak is tolerated only where Ctor.tla leaks the half-built block"], "replay": any_replay},
     "C14": {"level": "model_checking", "stages": c14, "assumptions": ["the reference answers (what the values answer) are Compare.tla's ValEq / ValCmp: header, then slice lexicographically, then recorded length; the real value types' own impls are checked against that table, every handle kind against the values", "exhaustive over the small domain only (3 letters, slices up to the bound, recorded length equal or +1)"], "replay": any_replay},
     "C16": {"level": "model_checking", "stages": c16, "assumptions": ["the 4-bit count word is a scale model of the 64-bit one: the guard compares with half the range, which is parametric in the width", "start counts are preset through the tracer's knowledge of the count's address; each clone runs in its own child process", "concurrent increments racing past the limit are not modelled (the guard's slack of isize::MAX increments is the crate's documented assumption)"], "replay": any_replay},
     "C17": {"level": "model_checking", "stages": c17, "assumptions": ["SerCalls(value, k) is uninterpreted: the trace supplies the call log of the value and of the handle and Serde.tla requires them equal", "payload family: u64, String, tuple, Vec, Option, hand-written nested structs; recording serializer and token deserializer of the harness", "serde feature only (default configuration)"], "replay": any_replay},
     "C02": {"level": "model_checking", "stages": c02, "assumptions": MM_ASSUME, "replay": any_replay},
-    "C01": {"level": "model_checking", "stages": c01, "assumptions": GRAPH_ASSUME, "replay": any_replay},
+    "C01": {"level": "model_checking", "stages": c01, "assumptions": GRAPH_ASSUME + MM_ASSUME, "replay": any_replay},
     "C03": {"level": "model_checking", "stages": c03, "assumptions": GRAPH_ASSUME + MM_ASSUME, "replay": any_replay},
     "C04": {"level": "model_checking", "stages": c04, "assumptions": GRAPH_ASSUME, "replay": any_replay},
     "C08": {"level": "model_checking", "stages": c08, "assumptions": GRAPH_ASSUME + MM_ASSUME, "replay": any_replay},
